@@ -151,7 +151,7 @@ let handle_iterpv line args obs =
           | d :: _ :: sc :: _ ->
             let dd = int_of_string (String.sub d 1 (String.length d - 1)) in
             if dd <= 3 then begin
-              let v = Dispatch3.spec_value { Dispatch3.depths = []; quiet = false; tt = "none"; low = neginf_score; high = inf_score; cancel = -1 } g dd true in
+              let v = Dispatch3.spec_value { Dispatch3.depths = []; quiet = false; tt = "none"; low = neginf_score; high = inf_score; cancel = -1; ex = "full" } g dd true in
               if not (Dispatch3.eqv (Dispatch3.parse_score sc) v) then
                 report_spec ~key:"prop=C15" line (Printf.sprintf "depth %d reported with score %s, minimax value %s" dd sc (Dispatch3.score_str v))
             end
